@@ -161,6 +161,21 @@ class Ctx:
         return self._rec(event)
 
     def rec_handlers(self):
+        form = self.sc.get("handler_form")
+        if form == "partial":
+            # a callable without __name__: functools.partial of the recording handler
+            import functools
+
+            return [(e, functools.partial(self._rec_args, _tag="dsim")) for e in _notification_events()]
+        if form == "object":
+            # a callable object (no __name__ either)
+            outer = self
+
+            class _Callable:
+                def __call__(self, event):
+                    return outer._rec(event)
+
+            return [(e, _Callable()) for e in _notification_events()]
         if self.sc.get("handler_args"):
             # the documented (event, handler, [args]) form of binding
             return [(e, self._rec_args, ["dsim"]) for e in _notification_events()]
